@@ -333,52 +333,46 @@ def sib_htmlstack(p, res):
 
 
 # -------------------------------------------------------------- PIN-EXTRACT
+def _top_only_detector(p, f):
+    """the pending-bracket context must be a membership test over the whole stack; a look at its top misses a pending
+    ] or } below a pending parenthesis"""
+    for n in f.body_nodes():
+        if isinstance(n, ast.Compare) and any(isinstance(x, ast.Subscript) and src_of(x) in ('stack[-1]', 'stack[len(stack) - 1]') for x in ast.walk(n)) \
+                and any(isinstance(x, ast.Attribute) and x.attr in ('SquareR', 'CurlyR') for x in ast.walk(n)):
+            return n, src_of(n), 'inside an attribute set or text node (pending ] or } anywhere on the stack, also below a pending parenthesis) every character is accepted: the test must look at the whole stack, not only at its top'
+    return None
+
+
+def _filtered_update_detector(p, f):
+    for n in f.body_nodes():
+        if isinstance(n, ast.Call) and isinstance(n.func, ast.Attribute) and n.func.attr == 'update' and n.args:
+            a = n.args[0]
+            if isinstance(a, (ast.GeneratorExp, ast.DictComp, ast.ListComp)) and any(g.ifs for g in a.generators):
+                return n, src_of(n), 'user options must be merged unfiltered: a filter on truthiness drops lookAhead=False / prefix=""'
+    return None
+
+
 @rule('PIN-EXTRACT', 'N', 'extract: bracket context tests look at the whole stack, user options are merged unfiltered, quotes are matched by kind')
 def pin_extract(p, res):
-    ex = p.func('extract_abbreviation.extract_abbreviation')
-    s = src_of(ex.node)
-    for w, msg in (('if Brackets.CurlyR in stack:', 'inside a text node (a } is pending anywhere on the stack) every character is accepted'),
-                   ('elif Brackets.SquareR in stack or Brackets.CurlyR in stack:', 'inside an attribute set or text node (pending ] or } anywhere on the stack, also below a pending parenthesis) every character is accepted'),
-                   ('if not stack or stack.pop() != BRACE_PAIRS[ch]:', 'an opening bracket must match the most recent pending closer'),
-                   ('if not stack and scanner.pos != pos:', 'a result requires balanced brackets and at least one consumed character')):
-        if w in s:
-            res.ok(w)
-        else:
-            res.bad(F('PIN-EXTRACT', ex, ex.node, w, msg))
-    co = p.func('extract_abbreviation.create_options')
-    ups = [n for n in co.body_nodes() if isinstance(n, ast.Call) and isinstance(n.func, ast.Attribute) and n.func.attr == 'update']
-    if len(ups) == 1 and src_of(ups[0]) == 'options.update(opt)':
-        res.ok('create_options: options.update(opt) (falsy user values such as lookAhead=False are honoured)')
-    else:
-        res.bad(F('PIN-EXTRACT', co, ups[0] if ups else co.node, src_of(ups[0]) if ups else 'options.update(opt)',
-                  'user options must be merged unfiltered: a filter on truthiness drops lookAhead=False / prefix=""'))
-    d = [n for n in co.body_nodes() if isinstance(n, ast.Dict)]
-    if d and p.try_const(co, d[0]) == {'type': 'markup', 'lookAhead': True, 'prefix': ''}:
-        res.ok("defaults: type markup, lookAhead on, no prefix")
-    else:
-        res.bad(F('PIN-EXTRACT', co, co.node, 'default options', 'extract defaults changed'))
-    cq = p.func('extract_abbreviation.is_html.consume_quoted')
-    s = src_of(cq.node)
-    if 'quote = scanner.previous()' in s and "if scanner.previous() == quote and scanner.peek() != '\\\\':" in s and 'if is_quote(quote):' in s:
-        res.ok('is_html.consume_quoted: closed by the same quote character, unless escaped')
-    else:
-        res.bad(F('PIN-EXTRACT', cq, cq.node, 'scanner.previous() == quote', 'a quoted attribute value is delimited by two quotes of the same kind'))
-    cl = p.func('extract_abbreviation.consume_list')
-    s = src_of(cl.node)
-    if 'if not consumed:\n        scanner.pos = start' in s and 'consumed = i == 0' in s:
-        res.ok('consume_list restores the position unless the whole prefix matched')
-    else:
-        res.bad(F('PIN-EXTRACT', cl, cl.node, 'restore of consume_list', 'a partial prefix match must not move the scanner'))
-    tl = p.func('action_utils.utils.token_list')
-    s = src_of(tl.node)
-    if 'if start != pos:\n        ranges.append((offset + start, offset + pos))' in s and 'if start != end:\n                ranges.append((offset + start, offset + end))' in s:
-        res.ok('token_list: inner tokens end before the space (end), the last token ends at pos')
-    else:
-        res.bad(F('PIN-EXTRACT', tl, tl.node, 'flush conditions of token_list', 'a token before white space spans start..end, the trailing token spans start..pos (also when it is one character long)'))
+    from .tablecheck import check_table
+    check_table(p, res, 'PIN-EXTRACT', 'extract_abbreviation.extract_abbreviation',
+                'backward scan of extract: text/attribute context by membership in the pending-closer stack, an opening bracket must match the most recent pending closer, a result requires balanced brackets and at least one consumed character',
+                detectors=(_top_only_detector,))
+    check_table(p, res, 'PIN-EXTRACT', 'extract_abbreviation.create_options', 'defaults (markup, lookAhead on, no prefix) updated with the user options, unfiltered', detectors=(_filtered_update_detector,))
+    check_table(p, res, 'PIN-EXTRACT', 'extract_abbreviation.is_html.consume_quoted', 'a quoted attribute value is delimited by two quotes of the same kind, unless escaped')
+    check_table(p, res, 'PIN-EXTRACT', 'extract_abbreviation.consume_list', 'a partial prefix match must not move the scanner')
+    check_table(p, res, 'PIN-EXTRACT', 'extract_abbreviation.consume_pair', 'consume_pair restores the position unless a balanced pair was consumed')
+    check_table(p, res, 'PIN-EXTRACT', 'extract_abbreviation.get_start_offset', 'the abbreviation starts right after the nearest prefix occurrence')
+    check_table(p, res, 'PIN-EXTRACT', 'action_utils.utils.token_list', 'a token before white space spans start..end, the trailing token spans start..pos (also when it is one character long)')
+    check_table(p, res, 'PIN-EXTRACT', 'action_utils.utils.push_range', 'empty and repeated ranges are not reported')
     guv = p.func('html_matcher.utils.get_unquoted_value')
     ev = MiniEval(p)
     for v, want in (('"a"', 'a'), ("'a'", 'a'), ('a', 'a'), ('"a', 'a'), ("a'", 'a'), ('"it\'s"', "it's"), ("'text/javascript'", 'text/javascript')):
-        got = ev.call(guv, [v])
+        try:
+            got = ev.call(guv, [v])
+        except AnalysisError as e:
+            res.undecided('get_unquoted_value(%r)' % v, str(e))
+            continue
         if got != want:
             res.bad(F('PIN-EXTRACT', guv, guv.node, 'get_unquoted_value(%r) -> %r' % (v, got), 'one quote of either kind is trimmed at each end (expected %r)' % want))
         else:
